@@ -25,13 +25,14 @@ class RequestCase(Case):
     family = "requests"
 
     def __init__(self, cid, *, mode, R, P=2, K=1, C=0, B=1, N=2, zero=(), var_scaler=False, obj_scaler=False,
-                 con_scaler=False, filters=(), obj_filt=None, memo=False, nan_row=None):
+                 con_scaler=False, filters=(), obj_filt=None, memo=False, nan_row=None, readonly=False):
         """mode: functions | both | split (functions, then a gradient-only request at the same point)"""
         self.id = cid
         self.mode, self.R, self.P, self.K, self.C, self.B, self.N = mode, R, P, K, C, B, N
         self.zero = tuple(zero)
         self.var_scaler, self.obj_scaler, self.con_scaler = var_scaler, obj_scaler, con_scaler
         self.filters, self.obj_filt, self.memo, self.nan_row = filters, obj_filt, memo, nan_row
+        self.readonly = readonly   # the evaluator hands out read-only arrays (views of buffers it refills later)
         self.family = "requests/" + ("memoizing-evaluator" if memo else mode)
         rng = np.random.default_rng([R, P, N, 3])
         self.design = np.round(rng.uniform(-1, 1, (R, P, N)) * 64) / 64
@@ -115,8 +116,12 @@ class RequestCase(Case):
                     elif f >= K and ac is not None:
                         act = bool(ac[f - K, r])
                     out[i, f] = v[i, f] if (act or not garbage) else a[i, f]
-            objs = env.arr(out[:, :K])
-            cons = env.arr(out[:, K:]) if self.C else None
+            objs = env.arr(out[:, :K], writeable=not self.readonly)
+            cons = env.arr(out[:, K:], writeable=not self.readonly) if self.C else None
+            if self.readonly and not env.sym:
+                objs.setflags(write=False)
+                if cons is not None:
+                    cons.setflags(write=False)
             res = EvaluatorResult(objectives=objs, constraints=cons)
             given = {"objectives": objs, "constraints": cons, "snap_o": snapshot(objs), "snap_c": snapshot(cons), "out": out}
             if self.memo:
@@ -238,6 +243,19 @@ class RequestCase(Case):
             props.append((f"call{ci}.evaluator_objectives_unmodified", same_snapshot(g["objectives"], g["snap_o"])))
             if g["constraints"] is not None:
                 props.append((f"call{ci}.evaluator_constraints_unmodified", same_snapshot(g["constraints"], g["snap_c"])))
+        # delivered results are snapshots: they never share memory with what the evaluator returned
+        def raw(x):
+            return x.a if isinstance(x, SymArray) else np.asarray(x)
+        for ri, res in enumerate(a["results"]):
+            for item in res:
+                ev = item.evaluations
+                for nm in ("objectives", "constraints", "perturbed_objectives", "perturbed_constraints"):
+                    arr = getattr(ev, nm, None)
+                    if arr is None:
+                        continue
+                    shared = any(np.shares_memory(raw(arr), raw(call["given"][k])) for call in a["calls"]
+                                 for k in ("objectives", "constraints") if call["given"][k] is not None)
+                    props.append((f"res{ri}.{nm}.does_not_alias_evaluator_arrays", SB(not shared)))
         # memoising evaluator: the second round reports what the first did
         if self.memo:
             half = len(a["results"]) // 2
@@ -320,6 +338,9 @@ def build_cases(tier):
     add(mode="split", R=3, P=1, K=2, filters=(sort_filter(0, 1),), obj_filt=(0, -1))
     add(mode="functions", R=2, K=1, C=1, nan_row=(0, 1, 1))
     add(mode="functions", R=2, K=1, C=1, nan_row=(0, 1, 0))
+    add(mode="functions", R=2, K=1, C=1, readonly=True)
+    add(mode="both", R=2, P=1, K=1, C=1, readonly=True)
+    add(mode="split", R=2, P=1, K=1, readonly=True, zero=(1,))
     add(mode="both", R=2, P=1, K=1, C=1, nan_row=(0, 3, 1))
     # memoising evaluator with scalers (aliasing)
     add(mode="functions", R=2, K=2, obj_scaler=True, memo=True)
